@@ -344,6 +344,26 @@ fn apply_batch(builder: &mut FnGraphBuilder<Fun>, pairs: &[(usize, usize)], cont
         18 => go!(18),
         19 => go!(19),
         20 => go!(20),
+        21 => go!(21),
+        22 => go!(22),
+        23 => go!(23),
+        24 => go!(24),
+        25 => go!(25),
+        26 => go!(26),
+        27 => go!(27),
+        28 => go!(28),
+        29 => go!(29),
+        30 => go!(30),
+        31 => go!(31),
+        32 => go!(32),
+        33 => go!(33),
+        34 => go!(34),
+        35 => go!(35),
+        36 => go!(36),
+        37 => go!(37),
+        38 => go!(38),
+        39 => go!(39),
+        40 => go!(40),
         n => panic!("harness: unsupported batch length {n}"),
     }
 }
@@ -592,6 +612,20 @@ fn run_b(c: &CaseB, lines: &mut Vec<String>, flags: &mut CaseFlags) {
             }
         }
     }
+    // `nm-deep` family: build() is first run on a helper thread with a small stack (128 KiB); the clean
+    // code needs a constant amount of stack whatever the depth of the graph. A stack overflow kills
+    // the whole process: the CASE line, flushed before the run, is then the last line of the output.
+    if c.family.starts_with("nm-deep") {
+        let ops = c.ops.clone();
+        let handle = std::thread::Builder::new()
+            .stack_size(128 * 1024)
+            .spawn(move || matches!(build_ops(&ops).outcome, Outcome::Ok { .. }))
+            .expect("spawn");
+        match handle.join() {
+            Ok(ok) => obs!("BD", if ok { "ok".to_string() } else { "failed".to_string() }),
+            Err(_) => obs!("BD", "panicked".to_string()),
+        }
+    }
     let built = build_ops(&c.ops);
     flags.has_cyc = built.r.iter().any(|t| t == "cyc");
     obs!(
@@ -710,6 +744,27 @@ fn run_b(c: &CaseB, lines: &mut Vec<String>, flags: &mut CaseFlags) {
         let _ = g.iter().next();
         let v: Vec<usize> = g.iter().map(|f| f.idx).collect();
         obs!("PM4", obs_list(&v));
+    }
+
+    // NI / NR / ZI / ZR: several lazy iterators of one graph value alive at once: the outer order of a
+    // nested iter() loop whose inner loop runs an iter() (NI) or an iter_rev() (NR) to the end, and
+    // iter() zipped with iter_rev() (ZI = the left items, ZR = the right items)
+    {
+        let mut outer = Vec::new();
+        for f in g.iter() {
+            outer.push(f.idx);
+            let _inner: usize = g.iter().count();
+        }
+        obs!("NI", obs_list(&outer));
+        let mut outer = Vec::new();
+        for f in g.iter_rev() {
+            outer.push(f.idx);
+            let _inner: usize = g.iter().count();
+        }
+        obs!("NR", obs_list(&outer));
+        let (zl, zr): (Vec<usize>, Vec<usize>) = g.iter().zip(g.iter_rev()).map(|(a, b)| (a.idx, b.idx)).unzip();
+        obs!("ZI", obs_list(&zl));
+        obs!("ZR", obs_list(&zr));
     }
 
     // CL*: iteration orders of a `clone()`, of `FnGraph::new()` after `clone_from(&g)`, and of a
